@@ -306,9 +306,10 @@ def owed_output(ctx):
     if not fs:
         ctx.anchor_missing('<BCJ2Reader as Read>::read')
         return
-    f = fs[0]
+    from rules.io import effective_read
+    key = '%s:input-end-with-output-owed-is-not-Ok' % fs[0].key
+    f = effective_read(F, fs[0])
     prov = Prov(f)
-    key = '%s:input-end-with-output-owed-is-not-Ok' % f.key
     back = {(t, h) for t in f.reachable for h in f.succ[t] if f.dominates(h, t)}
     starts = []
     for b in sorted(f.reachable):
@@ -421,8 +422,9 @@ def carry_source(ctx):
     if not fs:
         ctx.anchor_missing('<BCJ2Reader as Read>::read')
         return
-    f = fs[0]
-    key = '%s:carry-copied-from-the-position-decode-left' % f.key
+    from rules.io import effective_read
+    key = '%s:carry-copied-from-the-position-decode-left' % fs[0].key
+    f = effective_read(F, fs[0])
     dec = {bi for bi, t, c in f.calls() if c.name == 'decode' and 'Bcj2Decoder' in c.path}
     loads, stores = [], []
     for bi in sorted(f.reachable):
